@@ -103,7 +103,9 @@ pub fn replay_subprocess(prop: &str, file: &Path, timeout: Duration) -> Result<R
                     let _ = o.read_to_string(&mut s);
                 }
                 if st.success() {
-                    return serde_json::from_str::<ReplayOutcome>(s.trim()).map_err(|e| format!("unparsable replay output: {e}: {s}"));
+                    // the subject may print to stdout (e.g. PathTpc::validate does): the outcome is the last line
+                    let last = s.lines().rev().find(|l| !l.trim().is_empty()).unwrap_or("");
+                    return serde_json::from_str::<ReplayOutcome>(last.trim()).map_err(|e| format!("unparsable replay output: {e}: {last}"));
                 } else {
                     use std::os::unix::process::ExitStatusExt;
                     return Ok(ReplayOutcome {
